@@ -68,7 +68,7 @@ class FSock:
 
 class ServerWorld:
     def __init__(self, seed=0, interval=1 / 60, conn_timeout=None, temp_timeout=None, keepalive=None, msg_timeout=None, blocklist=(), mtu=None,
-                 handler_raise=0.0, echo=True, urandom=None, echo_deadline=0.6):
+                 handler_raise=0.0, echo=True, urandom=None, echo_deadline=0.6, late_config=False):
         self.C = C = impl.mod("connection")
         self.S = S = impl.mod("server")
         self.Tw = Tw = impl.mod("twisted")
@@ -95,10 +95,13 @@ class ServerWorld:
         self.producer = {}         # datagram bytes -> id of the client that produced them (replays keep their producer)
         self.goodbye = set()       # addresses whose client said goodbye / was kicked: their disconnect is not a silence time-out
         self.stopped_req = False
+        self.raise_in = None       # restrict handler exceptions to these events (None: any)
         self.on_disconnect = None  # optional application behaviour inside the handler's disconnect event (e.g. "match over": close the other players)
 
         class Hn(self.H.EventHandler):
             def _maybe(s, what):
+                if world.raise_in and what not in world.raise_in:
+                    return
                 if world.handler_raise and world.rnd.random() < world.handler_raise:
                     world.ev[-1]["raised"] = 1
                     raise RuntimeError("handler raises in " + what)
@@ -135,22 +138,29 @@ class ServerWorld:
                 s._maybe("update")
         self.handler = Hn()
         self.ctxt = X.ServerContext(self.handler)
-        self.ctxt.setInterval(interval)
-        if conn_timeout is not None:
-            self.ctxt.setConnectionTimeout(conn_timeout)
-        if temp_timeout is not None:
-            self.ctxt.setTempConnectionTimeout(temp_timeout)
-        if keepalive is not None:
-            self.ctxt.setKeepAliveInterval(keepalive)
-        if msg_timeout is not None:
-            self.ctxt.setMessageTimeout(msg_timeout)
-        if blocklist:
-            self.ctxt.setBlockList(set(blocklist))
+
+        def configure():
+            self.ctxt.setInterval(interval)
+            if conn_timeout is not None:
+                self.ctxt.setConnectionTimeout(conn_timeout)
+            if temp_timeout is not None:
+                self.ctxt.setTempConnectionTimeout(temp_timeout)
+            if keepalive is not None:
+                self.ctxt.setKeepAliveInterval(keepalive)
+            if msg_timeout is not None:
+                self.ctxt.setMessageTimeout(msg_timeout)
+            if blocklist:
+                self.ctxt.setBlockList(set(blocklist))
+        # the documentation asks for the configuration "prior to calling the run method": it may be made before or after the server object is built
+        if not late_config:
+            configure()
         if urandom is not None:
             X.os = type("OsProxy", (), {"urandom": staticmethod(urandom), "__getattr__": lambda s, k: getattr(os, k)})()
         Tw.reactor = type("R", (), {"callFromThread": staticmethod(lambda f, *a: f(*a))})
         self.srv = Tw.TwistedServer(self.ctxt, ("0.0.0.0", 1), install_signals=False)
         self.srv.transport = type("Tr", (), {"write": staticmethod(lambda d, a: world.server_out(bytes(d), a))})
+        if late_config:
+            configure()
         self.srv.thread.cv_queue = FakeCond(self.srv.thread.lk_queue, self.baton)
         self.clients = {}       # cid -> dict(cl, addr, sock, silent, tag)
         self.to_server = []     # (datagram, addr, kind, genuine)
@@ -296,7 +306,14 @@ class ServerWorld:
         conf = self.clients[cid]["conf"]       # what the user configured (the harness's own record, not the library's attributes)
         self.ev.append(dict(ev="cnew", now=self.now(), c=cid, a=self.aid(addr), connTimeout=int(round(conf["ct"] * 1e4)), hascb=int(bool(callback)),
                             ka=int(round(conf["ka"] * 1e4)), mt=int(round(conf["mt"] * 1e4))))
-        cb = (lambda ok: world.clients[cid]["cb"].append(bool(ok))) if callback else None
+        if callback == "login":
+            # the usual pattern: the application sends its first request from inside the connect callback - it travels in the same datagram as the challenge response
+            def cb(ok):
+                world.clients[cid]["cb"].append(bool(ok))
+                if ok:
+                    world.request(cid, 900000 + cid)
+        else:
+            cb = (lambda ok: world.clients[cid]["cb"].append(bool(ok))) if callback else None
         cl.connect(("srv", 1), cb) if callback else cl.connect(("srv", 1))
         if cl.conn is not None:
             cl.conn.clock = self.vt.time
